@@ -75,6 +75,7 @@ class Sim(object):
         self.forced_simp = expr_simp
         self.canon_only = expr_simp is not None     # attribution run: no reliance on pointer normalisation
         self.last_mut = "init"
+        self.last_value = None
         self.soft = {}                  # bucket -> detail of non-fatal discrepancies
         self.nsteps = 0
 
@@ -370,7 +371,15 @@ class Sim(object):
         w = WIDTHS[wi % len(WIDTHS)]
         api %= 6
         evaluated = api in (0, 1)
-        val = self.value(w, kind, va, vb)
+        kind %= 10
+        if kind >= 8 and self.last_value is not None:
+            # the same value again (same width), so that equal bytes of two writes become neighbours
+            val = self.last_value
+            w = val.size // 8
+            self.stats.add("same-value-twice")
+        else:
+            val = self.value(w, kind, va, vb)
+        self.last_value = val
         vals = [S(val, self.env_cur(k) if evaluated else self.env_init(k)) for k in range(NVAL)]
         if evaluated:
             mem = m.ExprMem(self.ptr(basekey, off, form), 8 * w)
@@ -398,7 +407,7 @@ class Sim(object):
         self.touched.add(self.winidx(win))
         self.last_mut = "write"
         self.stats.add("write")
-        if kind % 8 in (3, 4, 5, 6):
+        if kind in (3, 4, 5, 6):
             self.stats.add("memvalue")
         self.sweep()
         # wide reads around the written cell
@@ -621,7 +630,7 @@ def _op_strategy():
     def op(draw):
         k = draw(i(0, 19))
         if k < 9:
-            return ["w", draw(i(0, 5)), draw(win), draw(offc), draw(wi), draw(i(0, 7)), draw(win), draw(offc),
+            return ["w", draw(i(0, 5)), draw(win), draw(offc), draw(wi), draw(i(0, 9)), draw(win), draw(offc),
                     draw(i(0, 4))]
         if k < 12:
             return ["r", draw(i(0, 4)), draw(win), draw(offc), draw(wi), draw(i(0, 4))]
